@@ -773,6 +773,9 @@ func checkWith(t ev.TB, test string, p *payload, isReplay bool) {
 	if v.fail == "" && v.infra == "" {
 		if rr := newRaceReports(); rr != "" {
 			v.fail = "the race detector reported during this case:\n" + rr
+			if !tengoFrames(rr) {
+				v.fail = "the race detector reported during this case, but no frame of the library under test is involved (a race inside the harness?):\n" + rr
+			}
 		}
 	}
 	switch {
